@@ -629,6 +629,28 @@ func CFFGlyph(r *rand.Rand, name string, width float64, intOnly bool) *cff.Glyph
 			x4, x5, x6 := x3+d(), x3+2*d(), x3+3*d()
 			g.CurveTo(x4, y+dy2, x5, y, x6, y+endDy)
 		}
+		if r.IntN(12) == 0 {
+			// runs of slanted lines (or curves) about as long as the operand
+			// stack, followed by a segment of the other kind: the encoder has to
+			// split the run at the stack limit of 48 operands
+			x, y := g.Cmds[len(g.Cmds)-1].Args[0], g.Cmds[len(g.Cmds)-1].Args[1]
+			if r.IntN(2) == 0 {
+				for k := 18 + r.IntN(34); k > 0; k-- {
+					x, y = x+float64(1+r.IntN(9)), y+float64(r.IntN(19)-9)
+					if y == g.Cmds[len(g.Cmds)-1].Args[len(g.Cmds[len(g.Cmds)-1].Args)-1] {
+						y++
+					}
+					g.LineTo(x, y)
+				}
+				g.CurveTo(x+5, y+9, x+11, y+13, x+20, y+4)
+			} else {
+				for k := 5 + r.IntN(12); k > 0; k-- {
+					g.CurveTo(x+3, y+7, x+9, y+11, x+14, y+2)
+					x, y = x+14, y+2
+				}
+				g.LineTo(x+7, y-13)
+			}
+		}
 		for k := 1 + r.IntN(6); k > 0; k-- {
 			if r.IntN(3) == 0 {
 				g.CurveTo(coord(r, intOnly), coord(r, intOnly), coord(r, intOnly), coord(r, intOnly), coord(r, intOnly), coord(r, intOnly))
